@@ -293,7 +293,7 @@ fn one_case(ctx: &Ctx, i: usize, rep: &mut Report) {
     if !fat32 {
         // (also counts that do not fill the last root block: the library must round the region UP;
         // the formatter zero-fills the rest of that block, so both readers agree on the listing)
-        g.root_entries = *rng.pick(&[16u32, 32, 112, 512, 40, 24, 100, 200]);
+        g.root_entries = *rng.pick(&[16u32, 32, 112, 512, 40, 24, 100, 200, 1024, 2048, 4096, 2040]);
     }
     let spc = g.spc as usize;
     let per = spc * 16;
